@@ -139,6 +139,12 @@ hs.append(H("h9_resize", "h9_resize.c", ["asyncClient_setOption", "asyncClient_g
             [I("s2_to1", "CACHE_S=2", "NEW_N=1"), I("s3_to1", "CACHE_S=3", "NEW_N=1"), I("s3_to2", "CACHE_S=3", "NEW_N=2"), I("s3_to4", "CACHE_S=3", "NEW_N=4")],
             [I("s2_to1", "CACHE_S=2", "NEW_N=1"), I("s3_to1", "CACHE_S=3", "NEW_N=1"), I("s3_to2", "CACHE_S=3", "NEW_N=2"), I("s3_to4", "CACHE_S=3", "NEW_N=4"), I("s5_to6", "CACHE_S=5", "NEW_N=6")]))
 
+hs.append({"name": "h10_recycle", "src": "h10_recycle.c", "env": ENV, "tus": [], "unwind": 8, "timeout": 300, "max_replays": 8,
+           "unwindset": ["KSI_AsyncHandle_free:3", "KSI_AsyncHandle_cleanup:3"],
+           "functions": ["KSI_AbstractAsyncHandle_new", "KSI_AsyncAggregationHandle_new", "KSI_AsyncHandle_free", "KSI_AsyncHandle_cleanup", "asyncClient_addAggregatorRequest"],
+           "bound": "one KSI_AsyncHandle released through KSI_AsyncHandle_free with ARBITRARY state, id, error fields, send progress, clocks and origin and with request, response, message, buffer and user context attached, "
+                    "into ctx->asyncHandleRecycle; then re-constructed and submitted to an empty cache of size 1"})
+
 plan = {
  "property": "C13",
  "outside": "cache sizes above 4 (step harnesses) / 2 (histories); histories longer than 4 operations; the transports themselves (net_tcp_async.c is C14's subject, net_http_curl_async.c needs libcurl); "
